@@ -38,7 +38,79 @@ func (p *Program) Callees(call ssa.CallInstruction) []*ssa.Function {
 			return []*ssa.Function{fn}
 		}
 	}
-	return nil
+	return localFuncTable(c.Value)
+}
+
+// localFuncTable: the called value is an element read from a table (array / slice literal) of function values built
+// in this very function and used for nothing but indexing: the callees are the table's entries.
+func localFuncTable(v ssa.Value) []*ssa.Function {
+	ld, ok := v.(*ssa.UnOp)
+	if !ok {
+		return nil
+	}
+	ia, ok := ld.X.(*ssa.IndexAddr)
+	if !ok {
+		return nil
+	}
+	base := ia.X
+	if sl, ok := base.(*ssa.Slice); ok {
+		if sl.Referrers() != nil {
+			for _, r := range *sl.Referrers() {
+				switch x := r.(type) {
+				case *ssa.IndexAddr, *ssa.DebugRef:
+				case *ssa.Call:
+					if b, isB := x.Call.Value.(*ssa.Builtin); !isB || (b.Name() != "len" && b.Name() != "cap") {
+						return nil
+					}
+				default:
+					return nil
+				}
+			}
+		}
+		base = sl.X
+	}
+	al, ok := base.(*ssa.Alloc)
+	if !ok || al.Referrers() == nil {
+		return nil
+	}
+	var out []*ssa.Function
+	for _, r := range *al.Referrers() {
+		switch x := r.(type) {
+		case *ssa.Slice, *ssa.DebugRef:
+		case *ssa.IndexAddr:
+			if x.Referrers() == nil {
+				continue
+			}
+			for _, rr := range *x.Referrers() {
+				switch y := rr.(type) {
+				case *ssa.Store:
+					if y.Addr != x {
+						return nil
+					}
+					switch f := y.Val.(type) {
+					case *ssa.Function:
+						if f.Blocks != nil {
+							out = append(out, f)
+						}
+					case *ssa.MakeClosure:
+						fn, ok := f.Fn.(*ssa.Function)
+						if !ok {
+							return nil
+						}
+						out = append(out, fn)
+					default:
+						return nil
+					}
+				case *ssa.UnOp, *ssa.DebugRef:
+				default:
+					return nil
+				}
+			}
+		default:
+			return nil
+		}
+	}
+	return out
 }
 
 // ExtCallee returns the static callee without body (library function / method), or nil.
